@@ -45,10 +45,14 @@ def check_parse_controls(ctx, f, R='T3'):
     pouts = absx.Interp(f, P, unroll=1).run()
     seen = set()
     for o in pouts:
-        pushes = [e for e in o.st.ev if e[0] == 'call' and e[1].endswith('Vec::<T, A>::push')]
+        # the element that one generic control of the list contributes to the result: what a `for` loop over the list pushes,
+        # or what the closure of `map(..).collect()` over the list yields (the returned term is then many(list, elem, value))
+        pushes = [e[2][1] for e in o.st.ev if e[0] == 'call' and e[1].endswith('Vec::<T, A>::push')]
+        if not pushes and o.kind in ('val', 'ret') and o.val[0] == 'many' and o.val[3] != ('skip',):
+            pushes = [o.val[3]]
         if not pushes:
             continue
-        ctl = pushes[0][2][1]
+        ctl = pushes[0]
         if not (ctl[0] == 'ctor' and ctl[1].endswith('Control') and len(ctl[2]) == 2 and ctl[2][1][0] == 'struct'):
             ctx.fail(R + '.control-shape', 'push', loc(P.root), 'pushed value is not Control(type, RawControl{..})'); continue
         known, raw = ctl[2]
@@ -58,6 +62,9 @@ def check_parse_controls(ctx, f, R='T3'):
             """ordinals read from the per-control component cursor (whose base is itself an element of the control list)"""
             return sorted({x[3] for x in absx.leaves(t, lambda x: x[0] == 'nth') if absx.leaves(x[1], lambda y: y[0] in ('nth', 'elem'))})
         okt = inner(ctype) == [0] and 'from_utf8' in calls_in(ctype) and 'expect_primitive' in calls_in(ctype)
+        # ... of a generic element of the list handed in (the constructed content of the parameter), not of some other list
+        els = absx.leaves(ctype, lambda x: x[0] == 'elem')
+        okt = okt and bool(els) and all('expect_constructed' in calls_in(x[1]) and absx.leaves(x[1], lambda y: y[0] == 'param') for x in els)
         def second_pc(pred):
             return any(t and pred(a) for a, t in o.st.pc)
         absent = absx.pc_variant(o.st.pc, lambda v: v[0] == 'nth' and v[3] == 1 and inner(v) == [1], 'None') is True
